@@ -57,7 +57,9 @@ RefStep0(rs, e) ==
     [] e.ev = "DropReader" -> [rs EXCEPT !.readerGone = TRUE, !.waitR = FALSE]
     [] e.ev = "NeedRead" ->
          Expect((e.ret = "dropped") <=> rs.readerGone,
-                [rs EXCEPT !.waitF = (e.ret = "pause")], "NeedRead/dropped-status", "Status")
+                \* back-pressure is truthful: the feeder is told to pause only while the limit's worth of data is buffered
+                Expect(e.ret # "pause" \/ SumQ(rs.q) >= LIM, [rs EXCEPT !.waitF = (e.ret = "pause")], "NeedRead/pause-below-limit", "Status"),
+                "NeedRead/dropped-status", "Status")
     [] e.ev = "Poll" ->
          LET afterF(s) ==      \* the reader made progress: a paused feeder must hear about it once below LIM
                IF rs.waitF /\ SumQ(s.q) < LIM
